@@ -397,6 +397,26 @@ func runSessRecord(path string, seed int64, ntraces, steps int, sum *tl.Summary)
 		}
 		undelivered := []int{}
 		shape := ""
+		// attack in flight: a tampered copy of the packet just sent, delivered before or after the original
+		inflight := func(i int) {
+			if r.Intn(4) != 0 {
+				return
+			}
+			cl := classes[sn.wire[i-1].kind]
+			tc := cl[r.Intn(len(cl))]
+			j, err := sn.tamper(i, tc)
+			if err != nil {
+				return
+			}
+			emit("tamper", "", "", "", i, tc, "")
+			shape += "T" + tc
+			if r.Intn(2) == 0 {
+				undelivered[len(undelivered)-1] = j
+				undelivered = append(undelivered, i)
+			} else {
+				undelivered = append(undelivered, j)
+			}
+		}
 		for s := 0; s < steps; s++ {
 			// pending packets are delivered (mostly to their destination) before anything else happens
 			if len(undelivered) > 0 && r.Intn(8) != 0 {
@@ -433,6 +453,7 @@ func runSessRecord(path string, seed int64, ntraces, steps int, sum *tl.Summary)
 				emit("hs", a, b, k, i, "", map[bool]string{true: "record", false: "norecord"}[rec])
 				undelivered = append(undelivered, i)
 				shape += "h"
+				inflight(i)
 			case c < 10 && na.unk[b] != nil:
 				i, kn, err := sn.sendWhoareyou(a, b)
 				if err != nil {
@@ -441,6 +462,7 @@ func runSessRecord(path string, seed int64, ntraces, steps int, sum *tl.Summary)
 				emit("way", a, b, "", i, "", map[bool]string{true: "known", false: "unknownnode"}[kn])
 				undelivered = append(undelivered, i)
 				shape += "w"
+				inflight(i)
 			case c < 14 && na.known[b] != nil:
 				k := kinds[r.Intn(len(kinds))]
 				i, err := sn.sendMsg(a, b, k)
@@ -450,6 +472,7 @@ func runSessRecord(path string, seed int64, ntraces, steps int, sum *tl.Summary)
 				emit("msg", a, b, k, i, "", "")
 				undelivered = append(undelivered, i)
 				shape += "m"
+				inflight(i)
 			case c < 17 && len(sn.wire) > 0:
 				// tamper with one of the recent packets and deliver the copy
 				i := len(sn.wire) - r.Intn(min(3, len(sn.wire)))
